@@ -14,12 +14,12 @@ func run(c *core.C) {
 	full := tmworld.New25(tmworld.C25Config{Thorough: !c.Quick()})
 	coreSc := tmworld.New25(tmworld.C25Config{Core: true})
 	parts := []ksim.Part{
-		{Name: "all-pairs", Sc: full, Cfg: ksim.Config{MaxDepth: 2}, Share: 0.6},
+		{Name: "all-pairs", Sc: full, Cfg: ksim.Config{MaxDepth: 2 + d}, Share: 0.75},
 		{Name: "core-population/deeper", Sc: coreSc, Cfg: ksim.Config{MaxDepth: 3 + d}},
 	}
 	ksim.RunParts(c, parts, [][]ksim.Op{
 		{{K: "rec", A: []int{2, 5}}, {K: "rec", A: []int{2, 5}}},
-		{{K: "upg", A: []int{25, 0, 0}}, {K: "upg", A: []int{25, 0, 0}}},
+		{{K: "upg", A: []int{24, 0, 0}}, {K: "upg", A: []int{24, 0, 0}}},
 	})
 	c.Set("alphabet", "rec(i,j) = MsgRecoverClient signed by the gov authority for every ordered pair (subject i, substitute j) of the population | upg(i,plan,request) = MsgUpgradeClient for every upgrade subject with each request shape of its own plan, and the exact request of plan 0 against every client")
 	c.Set("population", full.Population())
